@@ -272,8 +272,10 @@ impl<'de> serde::Deserialize<'de> for MapType {
     where
         D: serde::Deserializer<'de>,
     {
-        let s = <&str>::deserialize(deserializer)?;
-        Ok(Self::new(s))
+        // Not every deserializer can lend out a borrowed string (the macro's
+        // token-stream deserializer cannot), so take an owned one.
+        let s = String::deserialize(deserializer)?;
+        Ok(Self::new(&s))
     }
 }
 
